@@ -397,6 +397,119 @@ Fixpoint exec (pol : policy) (p : prog) (cid fl : N) (it : bool) (s : mstate) {s
   | Abort => Fault s
   end.
 
+(* ---------- ContractHasTryBlock and handleException as walks over the handlers of the current contract invocation ----------
+   hs: the exception handlers (exceptionHandlingContext) of ALL contexts of the executing contract invocation, innermost
+   first — the order in which both walks visit them (contexts from the top of the invocation stack down while
+   ictx.sc == topctx.sc, within a context tryStack.Peek(0), Peek(1), ...). *)
+Inductive hstate := HTry | HCatch (hasfin : bool) | HFinally.
+
+(* handleException, restricted to the current contract invocation: handlers already in their finally block, or in a catch
+   block that has no finally block, are popped; the walk stops at the first handler still in its try block (-> catch or
+   finally) or in a catch block that has a finally block (-> finally).  None: the exception leaves this invocation. *)
+Fixpoint handle (hs : list hstate) : option (hstate * list hstate) :=
+  match hs with
+  | [] => None
+  | HFinally :: r | HCatch false :: r => handle r
+  | h :: r => Some (h, r)
+  end.
+Definition will_stop (hs : list hstate) : bool := is_some (handle hs).
+
+(* ContractHasTryBlock: does some handler of the walk count?  Lazy: state eTry; Eager (HEAD): also eCatch with finally *)
+Definition live (pol : policy) (h : hstate) : bool :=
+  match h, pol with
+  | HTry, _ => true
+  | HCatch true, Eager => true
+  | _, _ => false
+  end.
+Definition has_try (pol : policy) (hs : list hstate) : bool := existsb (live pol) hs.
+
+(* the machine with the handler stack carried explicitly: TRY pushes a handler, its state changes with the block that
+   runs, a callee starts with none; the layering decision asks has_try.  exec above is this machine with the walk's
+   answer passed down as a boolean (HandlerProofs.exec_h_exec). *)
+Fixpoint exec_h (pol : policy) (p : prog) (cid fl : N) (hs : list hstate) (s : mstate) {struct p} : res :=
+  match p with
+  | Skip => Normal s
+  | Put k v =>
+      if has fl fR && has fl fW then Normal (set_lay s (put_top (cid, k) (Some v) (lay s))) else Fault s
+  | Del k =>
+      if has fl fR && has fl fW then Normal (set_lay s (put_top (cid, k) None (lay s))) else Fault s
+  | Notify e =>
+      if has fl fN then Normal (add_ntf s (EvN cid e)) else Fault s
+  | NotifyVal k =>
+      if has fl fR && has fl fN then Normal (add_ntf s (EvV cid k (lget (cid, k) (lay s)))) else Fault s
+  | NotifyFee =>
+      (* Contract.Call needs ReadStates|AllowCall; getFeePerByte is safe: its frame is never layered *)
+      if has fl fR && has fl fC && has fl fN then Normal (add_ntf s (EvP cid (dflt (nc_get (lay s))))) else Fault s
+  | SetFee v =>
+      if has fl fR && has fl fW && has fl fC then
+        let w := wrapped (has_try pol hs) fl in
+        Normal (leave w (length (ntf s)) (setfee_state v (enter w s)))
+      else Fault s
+  | Move to amt cb =>
+      if has fl fAll then
+        let w := wrapped (has_try pol hs) fl in
+        let base := length (ntf s) in
+        let s1 := enter w s in
+        if bal (lay s1) cid <? amt then Normal (leave w base s1)            (* transfer returns false *)
+        else
+          let s3 := move_state cid to amt s1 in
+          if is_contract to then
+            match exec_h pol cb to fAll [] s3 with
+            | Normal s4 => if exc s4 then Fault (mark true s4) else Normal (leave w base s4)
+            | Thrown s4 => Fault s4                             (* "unhandled exception" from a native caller *)
+            | Fault s4 => Fault s4
+            end
+          else Normal (leave w base s3)
+      else Fault s
+  | MoveNeo to amt cb =>
+      if has fl fAll then
+        let w := wrapped (has_try pol hs) fl in
+        let base := length (ntf s) in
+        let s1 := enter w s in
+        let st := concat (map lst (lay s1)) in
+        if sval st (kNeo cid) <? amt then Normal (leave w base s1)          (* transfer returns false *)
+        else
+          let d1 := sval st (kClaim cid) in
+          let d2 := neo_d2 cid to amt st in
+          let s3 := neo_state cid to amt s1 in
+          (* onNEP17Payment of a receiving contract; then the deferred GAS mints, each with a (data = null) payment
+             callback when the receiver is a contract.  Any callback that returns while an exception is pending makes
+             the native caller fail: "unhandled exception" *)
+          match (if is_contract to then exec_h pol cb to fAll [] s3 else Normal s3) with
+          | Normal s4 =>
+              if exc s4 && is_contract to then Fault (mark true s4)          (* the NEO payment callback *)
+              else
+                let s5 := mint_state cid d1 s4 in                            (* the sender's claim, with its callback *)
+                if exc s4 && negb (d1 =? 0) && is_contract cid then Fault (mark true s5)
+                else Normal (leave w base (mint_state to d2 s5))             (* a receiving contract was dealt with above *)
+          | Thrown s4 => Fault s4
+          | Fault s4 => Fault s4
+          end
+      else Fault s
+  | Seq p q =>
+      match exec_h pol p cid fl hs s with
+      | Normal s1 => exec_h pol q cid fl hs s1
+      | r => r
+      end
+  | Call c f body =>
+      if has fl fR && has fl fC && (f <=? fAll) && is_contract c then
+        let fe := N.land fl f in
+        let w := wrapped (has_try pol hs) fe in
+        let base := length (ntf s) in
+        match exec_h pol body c fe [] (enter w s) with
+        | Normal s2 => Normal (leave w base s2)
+        | Thrown s2 => Thrown (unload w base s2)
+        | Fault s2 => Fault s2
+        end
+      else Fault s
+  | Try b c f =>
+      try_of (exec_h pol b cid fl (HTry :: hs))
+             (option_map (fun c' => exec_h pol c' cid fl (HCatch (is_some f) :: hs)) c)
+             (option_map (fun f' => exec_h pol f' cid fl (HFinally :: hs)) f) s
+  | Throw => Thrown (set_exc s true)
+  | Abort => Fault s
+  end.
+
 (* ---------- a transaction in a block (storeBlock) ---------- *)
 
 Definition start (base : layer) : mstate := mkM [mkL [] None None; base] [] false false.   (* interop.NewContext: d.GetPrivate() *)
